@@ -169,10 +169,7 @@ K_TIMER = {
                   TIMER_FNS + WHEEL_FNS, "1 timer, unwind 3 + heap loops", stub=True, unwindset=HEAP_LOOPS, timeout_q=900),
 }
 
-K_WHEEL_FAM = [H("k_c05_wheel_cancel_" + sh, "timer", "cancel of entry %s (x = a counter not in the heap) on a heap of 3 symbolic "
-                 "deadlines: exactly that entry leaves, next_deadline is the minimum of the survivors" % sh, WHEEL_FNS,
-                 "3 entries, symbolic whole-second deadlines in [1,64), concrete victim, unwind 8", timeout_q=600)
-               for sh in ["0", "1", "2", "x"]]
+K_WHEEL_FAM = []
 
 TR_FNS = ["<TransientSource<T> as EventSource>::process_events", "<TransientSource<T> as EventSource>::register",
           "<TransientSource<T> as EventSource>::reregister", "<TransientSource<T> as EventSource>::unregister",
@@ -288,61 +285,61 @@ DE_B = "every loop body of dispatch_events executed once from an arbitrary state
 M_DE = {
     "pa2": M("pa2_reset", OB.ob_pa2_reset, OB.ob_pa2_reset.__doc__, DE_FN, DE_B, replay=["d3_pending_action_error_path"]),
     "pav": M("pa_value", OB.ob_pa_value, OB.ob_pa_value.__doc__, DE_FN, DE_B, replay=["d3_pending_action_error_path"]),
-    "disp1": M("disp1_receiver", OB.ob_disp1_receiver, OB.ob_disp1_receiver.__doc__, DE_FN, DE_B),
-    "fsub": M("tokens_forget_sub", OB.ob_tokens_forget_sub, OB.ob_tokens_forget_sub.__doc__, DE_FN, DE_B),
-    "rm3": M("rm3_removed_check", OB.ob_rm3_removed_check, OB.ob_rm3_removed_check.__doc__, DE_FN, DE_B),
-    "re1": M("re1_no_guards", OB.ob_re1_no_guards, OB.ob_re1_no_guards.__doc__, DE_FN, DE_B),
-    "lc2": M("lc2_order", OB.ob_lc2_order, OB.ob_lc2_order.__doc__, DE_FN, DE_B + "; the before_sleep loop unrolled once more"),
-    "err1": M("err1", OB.ob_err1, OB.ob_err1.__doc__, DE_FN, DE_B),
+    "disp1": M("disp1_receiver", OB.ob_disp1_receiver, OB.ob_disp1_receiver.__doc__, DE_FN, DE_B, replay=["c01_routing_scenarios", "c14_lifecycle_scenarios"]),
+    "fsub": M("tokens_forget_sub", OB.ob_tokens_forget_sub, OB.ob_tokens_forget_sub.__doc__, DE_FN, DE_B, replay=["c14_lifecycle_scenarios"]),
+    "rm3": M("rm3_removed_check", OB.ob_rm3_removed_check, OB.ob_rm3_removed_check.__doc__, DE_FN, DE_B, replay=["c16_removed_in_callback", "c14_lifecycle_scenarios"]),
+    "re1": M("re1_no_guards", OB.ob_re1_no_guards, OB.ob_re1_no_guards.__doc__, DE_FN, DE_B, replay=["c08_reentrancy_scenarios"]),
+    "lc2": M("lc2_order", OB.ob_lc2_order, OB.ob_lc2_order.__doc__, DE_FN, DE_B + "; the before_sleep loop unrolled once more", replay=["c14_lifecycle_scenarios", "c01_routing_scenarios"]),
+    "err1": M("err1", OB.ob_err1, OB.ob_err1.__doc__, DE_FN, DE_B, replay=["d3_pending_action_error_path"]),
     "err2": M("err2_batch", OB.ob_err2_batch, OB.ob_err2_batch.__doc__, DE_FN, DE_B, replay=["d8_error_drops_batch_remainder"]),
 }
 
 H_FN = ["LoopHandle::remove", "LoopHandle::disable", "LoopHandle::update", "LoopHandle::enable",
         "LoopHandle::register_dispatcher", "LoopHandle::insert_idle", "io::Async::new", "io::LoopInner::kill"]
 M_H = {
-    "remove": M("handle_remove", OB.ob_handle_remove, OB.ob_handle_remove.__doc__, H_FN[:1], "all paths (loop-free)"),
-    "disable": M("handle_disable", OB.ob_handle_disable, OB.ob_handle_disable.__doc__, H_FN[1:2], "all paths (loop-free)"),
-    "update": M("handle_update", OB.ob_handle_update, OB.ob_handle_update.__doc__, H_FN[2:3], "all paths (loop-free)"),
-    "enable": M("handle_enable", OB.ob_handle_enable, OB.ob_handle_enable.__doc__, H_FN[3:4], "all paths (loop-free)"),
-    "re2": M("re2_no_double_borrow", OB.ob_re2_no_double_borrow, OB.ob_re2_no_double_borrow.__doc__, H_FN, "all paths"),
-    "reg1": M("register_dispatcher", OB.ob_register_dispatcher, OB.ob_register_dispatcher.__doc__, H_FN[4:5], "all paths"),
-    "idles": M("idles", OB.ob_idles, OB.ob_idles.__doc__, ["EventLoop::dispatch", "EventLoop::dispatch_idles"], "idle loop unrolled twice"),
+    "remove": M("handle_remove", OB.ob_handle_remove, OB.ob_handle_remove.__doc__, H_FN[:1], "all paths (loop-free)", replay=["c01_routing_scenarios", "c16_removed_in_callback", "c08_reentrancy_scenarios"]),
+    "disable": M("handle_disable", OB.ob_handle_disable, OB.ob_handle_disable.__doc__, H_FN[1:2], "all paths (loop-free)", replay=["c01_routing_scenarios", "d3_pending_action_error_path", "c08_reentrancy_scenarios"]),
+    "update": M("handle_update", OB.ob_handle_update, OB.ob_handle_update.__doc__, H_FN[2:3], "all paths (loop-free)", replay=["c01_routing_scenarios", "d3_pending_action_error_path", "c05_timer_scenarios"]),
+    "enable": M("handle_enable", OB.ob_handle_enable, OB.ob_handle_enable.__doc__, H_FN[3:4], "all paths (loop-free)", replay=["c01_routing_scenarios", "c05_timer_scenarios"]),
+    "re2": M("re2_no_double_borrow", OB.ob_re2_no_double_borrow, OB.ob_re2_no_double_borrow.__doc__, H_FN, "all paths", replay=["c08_reentrancy_scenarios"]),
+    "reg1": M("register_dispatcher", OB.ob_register_dispatcher, OB.ob_register_dispatcher.__doc__, H_FN[4:5], "all paths", replay=["c15_failed_registration", "d1_failed_lifecycle_register"]),
+    "idles": M("idles", OB.ob_idles, OB.ob_idles.__doc__, ["EventLoop::dispatch", "EventLoop::dispatch_idles"], "idle loop unrolled twice", replay=["c13_idle_scenarios"]),
     "insidle": M("insert_idle", OB.ob_insert_idle, OB.ob_insert_idle.__doc__,
-                 ["LoopHandle::insert_idle (+ wrapper closure)", "Idle::cancel", "<Option<F> as CancellableIdle>::cancel"], "all paths"),
+                 ["LoopHandle::insert_idle (+ wrapper closure)", "Idle::cancel", "<Option<F> as CancellableIdle>::cancel"], "all paths", replay=["c13_idle_scenarios"]),
 }
 
 M_L = {
-    "run": M("run", OB.ob_run, OB.ob_run.__doc__, ["EventLoop::run"], "2 loop iterations"),
-    "block_on": M("block_on", OB.ob_block_on, OB.ob_block_on.__doc__, ["EventLoop::block_on"], "2 loop iterations"),
+    "run": M("run", OB.ob_run, OB.ob_run.__doc__, ["EventLoop::run"], "2 loop iterations", replay=["p_sig_stress"]),
+    "block_on": M("block_on", OB.ob_block_on, OB.ob_block_on.__doc__, ["EventLoop::block_on"], "2 loop iterations", replay=["p_sig_stress"]),
     "signal": M("signal", OB.ob_signal, OB.ob_signal.__doc__, ["LoopSignal::stop", "LoopSignal::wakeup", "Notifier::notify",
-                "EventLoopWaker::wake", "EventLoopWaker::wake_by_ref"], "all paths (loop-free)"),
+                "EventLoopWaker::wake", "EventLoopWaker::wake_by_ref"], "all paths (loop-free)", replay=["p_sig_stress"]),
 }
 M_CH = {
     "send": M("chan_send", OB.ob_chan_send, OB.ob_chan_send.__doc__, ["channel::Sender::send", "channel::SyncSender::try_send",
-              "channel::SyncSender::send", "<PingOnDrop as Drop>::drop"], "all paths (loop-free)"),
+              "channel::SyncSender::send", "<PingOnDrop as Drop>::drop"], "all paths (loop-free)", replay=["p_chan_stress"]),
     "process": M("chan_process", OB.ob_chan_process, OB.ob_chan_process.__doc__, ["<Channel<T> as EventSource>::process_events (+closure)",
                  "<PingSource as EventSource>::process_events (+closures)", "<Generic as EventSource>::process_events", "drain_ping", "Ping::ping", "send_ping"],
-                 "receive loop unrolled twice; the batch-limit expression for every 64-bit capacity"),
+                 "receive loop unrolled twice; the batch-limit expression for every 64-bit capacity", replay=["p_chan_stress"]),
 }
 M_PING = {
     "ping": M("ping", OB.ob_ping, OB.ob_ping.__doc__, ["Ping::ping", "<FlagOnDrop as Drop>::drop", "send_ping", "drain_ping",
-              "<PingSource as EventSource>::process_events (+closures)", "<Generic as EventSource>::process_events"], "all paths; every 64-bit counter value"),
+              "<PingSource as EventSource>::process_events (+closures)", "<Generic as EventSource>::process_events"], "all paths; every 64-bit counter value", replay=["p_ping_stress"]),
 }
 
 M_EX = {
     "process": M("exec_process", OB.ob_exec_process, OB.ob_exec_process.__doc__, ["<Executor<T> as EventSource>::process_events (+closure)"],
-                 "dequeue loop unrolled twice"),
-    "send": M("exec_send", OB.ob_exec_send, OB.ob_exec_send.__doc__, ["futures::Sender::send"], "all paths"),
-    "drop": M("exec_drop", OB.ob_exec_drop, OB.ob_exec_drop.__doc__, ["<Executor<T> as Drop>::drop", "Scheduler::schedule"], "loops unrolled twice"),
-    "stream": M("stream", OB.ob_stream, OB.ob_stream.__doc__, ["<StreamSource<S> as EventSource>::process_events (+closure)"], "poll loop unrolled twice"),
+                 "dequeue loop unrolled twice", replay=["p_exec_stress"]),
+    "send": M("exec_send", OB.ob_exec_send, OB.ob_exec_send.__doc__, ["futures::Sender::send"], "all paths", replay=["p_exec_stress"]),
+    "drop": M("exec_drop", OB.ob_exec_drop, OB.ob_exec_drop.__doc__, ["<Executor<T> as Drop>::drop", "Scheduler::schedule"], "loops unrolled twice", replay=["p_exec_stress"]),
+    "stream": M("stream", OB.ob_stream, OB.ob_stream.__doc__, ["<StreamSource<S> as EventSource>::process_events (+closure)"], "poll loop unrolled twice", replay=["c10_stream_scenarios"]),
 }
 
 M_IO = {
-    "new": M("async_new", OB.ob_async_new, OB.ob_async_new.__doc__, ["io::Async::new"], "all paths", replay=["d5_async_adapter_registration"]),
+    "new": M("async_new", OB.ob_async_new, OB.ob_async_new.__doc__, ["io::Async::new"], "all paths", replay=["d5_async_adapter_registration", "c17_async_io", "c15_failed_registration"]),
     "drop": M("async_drop", OB.ob_async_drop, OB.ob_async_drop.__doc__, ["<Async as Drop>::drop", "<LoopInner as IoLoopInner>::kill", "Async::into_inner"],
-              "all paths", replay=["d5_async_adapter_registration"]),
+              "all paths", replay=["d5_async_adapter_registration", "c17_async_io", "c15_failed_registration"]),
     "io": M("async_io", OB.ob_async_io, OB.ob_async_io.__doc__, ["<Readable as Future>::poll", "<Writable as Future>::poll", "Async::poll_read",
-            "Async::poll_read_vectored", "Async::poll_write", "Async::poll_write_vectored", "Async::poll_flush"], "all paths"),
+            "Async::poll_read_vectored", "Async::poll_write", "Async::poll_write_vectored", "Async::poll_flush"], "all paths", replay=["c17_async_io"]),
 }
 
 M_TM = {
